@@ -17,6 +17,7 @@ import (
 	"sort"
 	"sync"
 	"sync/atomic"
+	"time"
 
 	bs "github.com/danthegoodman1/bloomsearch"
 )
@@ -177,6 +178,7 @@ type CallRec struct {
 	Handle  int    `json:"h,omitempty"`
 	Err     string `json:"err,omitempty"`
 	Inj     bool   `json:"inj,omitempty"`
+	W0      int64  `json:"w0,omitempty"` // wall clock at call entry (unix nanoseconds); only for reports and time-bound oracles
 	T0      int64  `json:"t0"`
 	T1      int64  `json:"t1"`
 	Writes  int    `json:"writes,omitempty"`  // Update
@@ -230,7 +232,7 @@ func (t *Trace) begin(kind, ptr string, size int, off int64, handle int, ctx con
 	t.mu.Lock()
 	ci := &CallInfo{Kind: kind, Seq: len(t.calls), KindSeq: t.kindSeq[kind], Ptr: ptr, Size: size, Off: off, Handle: handle, Ctx: ctx}
 	t.kindSeq[kind]++
-	t.calls = append(t.calls, CallRec{Kind: kind, Seq: ci.Seq, KindSeq: ci.KindSeq, Ptr: ptr, Size: size, Off: off, Handle: handle, T0: t.tick(), T1: -1})
+	t.calls = append(t.calls, CallRec{Kind: kind, Seq: ci.Seq, KindSeq: ci.KindSeq, Ptr: ptr, Size: size, Off: off, Handle: handle, W0: time.Now().UnixNano(), T0: t.tick(), T1: -1})
 	idx := ci.Seq
 	before := t.Before
 	t.mu.Unlock()
